@@ -884,6 +884,8 @@ class Frame:
                 raise PyExc("KeyError", (kk,), node)
             raise AnalysisError(f"lookup of unknown key {kk!r} in {obj!r}")
         if isinstance(obj, (list, tuple)):
+            if isinstance(k, (str, SStr)):
+                raise PyExc("TypeError", (f"{pytype_of(obj)} indices must be integers or slices, not str",), node)
             i = self.index(k)
             try:
                 return obj[i]
